@@ -7,7 +7,7 @@ K(a, s) == <<a, s>>
 KwSets == {{K("amd64", "testing"), K("x86", "stable")},
            {K("amd64", "stable"), K("x86", "testing"), K("arm64", "stable"), K("amd64-linux", "stable")},
            {K("amd64", "testing"), K("arm64", "testing"), K("amd64-linux", "testing")}}
-          \cup (IF Rich THEN {{K("amd64", "stable")}, {K("amd64", "testing")},
+          \cup (IF Rich THEN {{K("amd64", "stable")},
                                 {K("x86", "testing"), K("arm64", "stable"), K("amd64", "neg"), K("x86-macos", "stable")}} ELSE {})
 Pk(n, v, ks) == [name |-> n, ver |-> v, slot |-> "0", kws |-> ks]
 Knowns == {{"amd64", "x86", "amd64-linux"}} \cup (IF Rich THEN {{"amd64", "x86", "arm64", "amd64-linux", "x86-macos"}} ELSE {})
